@@ -32,8 +32,25 @@ def main(argv):
         resource.setrlimit(resource.RLIMIT_AS, (mem, mem))
     except (ValueError, OSError):
         pass
-    logging.disable(logging.CRITICAL)
-    warnings.simplefilter('ignore')
+    cfg = shard.get('config') or {}
+    if cfg.get('logging') == 'debug':
+        # a client that runs with DEBUG logging: every record is formatted
+        class _Sink(logging.Handler):
+            n = 0
+
+            def emit(self, record):
+                _Sink.n += 1
+                self.format(record)
+        root = logging.getLogger()
+        root.addHandler(_Sink())
+        root.setLevel(logging.DEBUG)
+        logging.getLogger('pamqp').setLevel(logging.DEBUG)
+    else:
+        logging.disable(logging.CRITICAL)
+    if cfg.get('warnings') == 'error':
+        warnings.simplefilter('error')      # python -W error
+    else:
+        warnings.simplefilter('ignore')
 
     from vmon import canon, env, rec as recmod
     from vmon.mon import sysmon
@@ -42,6 +59,8 @@ def main(argv):
                         out_path + '.journal')
     try:
         env.import_pamqp()
+        from vmon.checks import common as _common
+        _common.CONFIG.update(cfg)
         mod = importlib.import_module('vmon.checks.' + prop.lower())
         sysmon.install(env.REPO, lines=getattr(mod, 'WANT_LINES', True),
                        raises=getattr(mod, 'WANT_RAISES', False))
@@ -66,6 +85,15 @@ def main(argv):
     for (f, q, line, t), n in sysmon.raise_sites.items():
         r.sets['raise_sites'].add('%s:%s:%d:%s' % (f, q, line, t))
         r.counters['raise_site %s:%s:%s' % (f, q, t)] += n
+    if cfg:
+        for v in r.violations:
+            v['config'] = cfg
+            v['what'] = '[config %s] %s' % (json.dumps(cfg, sort_keys=True),
+                                            v['what'])
+        r.sets['configs'].add(json.dumps(cfg, sort_keys=True))
+        if cfg.get('pyflags'):
+            r.counters['python_optimize_flag_seen'] += int(
+                sys.flags.optimize > 0)
     tot = sysmon.totals()
     r.counters['lib_calls_total'] += tot['calls']
     r.counters['lib_backjumps_total'] += tot['jumps']
